@@ -779,6 +779,9 @@ func checkRecovered(n *node, m *model, dur durable, class func(string)) (*model,
 			}
 		}
 		for i := range n.idx {
+			if om == nil || om.id != nm.id {
+				break // the metric itself is new on the recovered node: its series live in a new scope
+			}
 			for _, c := range sortedKeys(rm.series[i][k]) {
 				ns := rm.series[i][k][c]
 				var os *seriesM
